@@ -118,4 +118,36 @@ def RefSW.seek (s : RefSW) (offset whence : Int) : RefSW × RefOut :=
   if target < s.base then (s, ⟨0, some "Offset", none⟩)
   else ({ s with off := target }, ⟨target - s.base, none, none⟩)
 
+/-- a call of the SectionWriter API with the scripted answer of the underlying writer -/
+inductive RefCall where
+  | write (plen accept : Nat) (fail : Bool)
+  | writeAt (plen : Nat) (off : Int) (accept : Nat) (fail : Bool)
+  | seek (offset whence : Int)
+  | size
+deriving Repr, DecidableEq
+
+def RefSW.step (s : RefSW) : RefCall → RefSW × RefOut
+  | .write plen accept fail => s.write plen accept fail
+  | .writeAt plen off accept fail => (s, s.writeAt plen off accept fail)
+  | .seek offset whence => s.seek offset whence
+  | .size => (s, ⟨s.limit - s.base, none, none⟩)
+
+def RefSW.run (s : RefSW) : List RefCall → List RefOut
+  | [] => []
+  | c :: r => let (s', o) := s.step c; o :: RefSW.run s' r
+
+/-- positions the API can express are int64: a call is in the reference machine's domain when the
+    position it asks for is representable -/
+def RefSW.callOK (s : RefSW) : RefCall → Bool
+  | .seek offset whence =>
+      whence < 0 || whence > 2 ||
+      (let target := offset + (if whence = 0 then s.base else if whence = 1 then s.off else s.limit)
+       decide (-9223372036854775808 ≤ target) && decide (target ≤ 9223372036854775807))
+  | .writeAt _ off _ _ => decide (-9223372036854775808 ≤ off) && decide (off ≤ 9223372036854775807)
+  | _ => true
+
+def RefSW.runOK (s : RefSW) : List RefCall → Bool
+  | [] => true
+  | c :: r => s.callOK c && RefSW.runOK (s.step c).1 r
+
 end Low
